@@ -238,6 +238,10 @@ def describe_operands_grouped(draw, ops, full=False, depth=0, max_depth=2, allow
                 break
             good = sub[0][0] if len(sub[0]) == 1 else {"$and": sub[0]}
             alts = [decoy_operand(draw) for _ in range(draw(st.integers(0, 2)))]
+            if isinstance(good, str) and len(good) > 1 and draw(st.booleans()):
+                pre = good[:draw(st.integers(1, len(good) - 1))]  # an alternative that is a prefix of the good one
+                if lit_ok(pre):
+                    alts.append(pre)
             alts.insert(draw(st.integers(0, len(alts))), good)
             pats.append({"$or": alts})
             k = e
